@@ -92,6 +92,16 @@ CHECKS = {
    "For every scenario expression: BFS over Search histories on one compiled object (8 documents incl. failing ones), state = digest of all private fields of the compiled expression plus every package-level variable, to closure (covers histories of every length), plus all histories up to length 2 (thorough 3) replayed call by call; every answer equals the fresh-Compile and the one-shot answer (map order harness-decided, exact equality). Parser: BFS over Parse histories of one Parser over 60 valid/invalid expressions to closure (477 states) plus all histories up to length 2 (thorough 3), each Parse equal to a fresh parser's on AST render and error type/message/offset.",
    "Successor states are reached by replaying the shortest history on a fresh object (real objects can not be cloned).",
    "DESIGN.md section 5 C13"),
+ "C18": ("M", "model_checking",
+   "exhaustive (typed document x navigational expression) enumeration with a differential oracle against the generic JSON twin",
+   "Documents built from nested struct types (by value and by pointer; every combination of nil/non-nil pointers, non-nil typed slices of length 0..2, nil elements in []*T) x all navigational expressions up to structural weight 3 (thorough 4) over the field names in both capitalisations, plus length() of slices and strings: the JSON-normalised result on the Go value must equal the result on its encoding/json round trip; every built-in applied to every typed slice/struct/pointer field must not panic.",
+   "The generic twin is the encoding/json round trip. Nil slices/maps are outside the property's domain.",
+   "DESIGN.md section 5 C18"),
+ "C19": ("P", "fault_enumeration",
+   "exhaustive stage/fault enumeration on the real jpgo binary (one process per case), in-process reference from the same tree",
+   "The jpgo binary built from the current tree is run on the product of 49 expressions (valid of every result type, lexer/parser syntax errors, evaluation errors, leading dash) x 24 input texts (valid of every type, empty, whitespace, truncated, trailing garbage, invalid UTF-8) x {-input file, stdin, missing file}: each case is one trace of the six-stage pipeline; stdout/exit status are compared with the in-process library result, and the two channels with each other.",
+   "Validity of the input is decided by encoding/json as jpgo does; object-member order handled through the reference outcome set.",
+   "DESIGN.md section 5 C19"),
 }
 
 NOT_YET = {}
@@ -112,6 +122,7 @@ def main():
        "add_only": True,
      },
      "engines": [
+       {"name": "P", "path": "/verif/cmd/vcheck/c19.go", "serves_properties": ["C19"], "kind_free_text": "process-level enumeration of pipeline stages / faults on the built jpgo binary"},
        {"name": "S", "path": "/verif/cmd/vsched (+ /verif/vsched, /verif/cmd/instrument, /verif/snap)", "serves_properties": sorted(k for k, v in CHECKS.items() if v[0] == "S"),
         "kind_free_text": "statement-level instrumented overlay build of /repo's working tree + cooperative scheduler with preemption-bounded DFS + deep-snapshot write monitor; free-running -race companion"},
        {"name": "H", "path": "/verif/cmd/vsched/c13.go", "serves_properties": sorted(k for k, v in CHECKS.items() if v[0] == "H"),
